@@ -84,6 +84,56 @@ def replay_concrete(spec, args, kwargs=None, timeout=120):
     return dict(reproduced=False, error='replay crashed: ' + (p.stderr or p.stdout)[-500:])
 
 
+def _witness_inputs(fn):
+    """a few simple concrete argument lists for a harness: all zeros / empty, and small distinct values"""
+    import inspect
+    params = list(inspect.signature(fn).parameters.values())
+    out = []
+    for variant in (0, 1, 2):
+        args = []
+        for j, prm in enumerate(params):
+            t = prm.annotation
+            ts = getattr(t, '__name__', str(t))
+            if t is int or ts == 'int':
+                args.append([0, j % 3 + 1, 2 - j % 3][variant])
+            elif t is bool or ts == 'bool':
+                args.append([False, True, j % 2 == 0][variant])
+            elif t is str or ts == 'str':
+                args.append(['', 'a', 'b,'][variant])
+            elif 'Optional' in str(t):
+                args.append([None, j, 0][variant])
+            else:
+                args.append(0)
+        out.append(args)
+    return out
+
+
+def _witness_failure(fn):
+    """run the harness concretely (no tracing) on witness inputs satisfying its precondition; return the first argument list on which it does not return True"""
+    import contextlib
+    import inspect
+    import io
+    import re
+    doc = fn.__doc__ or ''
+    pres = re.findall(r'^\s*pre:\s*(.+)$', doc, re.M)
+    names = list(inspect.signature(fn).parameters)
+    for args in _witness_inputs(fn):
+        env = dict(zip(names, args))
+        try:
+            if not all(eval(pr, {'len': len}, dict(env)) for pr in pres):
+                continue
+        except Exception:
+            continue
+        try:
+            with contextlib.redirect_stdout(io.StringIO()):
+                v = fn(*args)
+        except Exception:
+            return args
+        if v is not True:
+            return args
+    return None
+
+
 # ---------------------------------------------------------------- worker
 
 def _work(spec, conn):
@@ -105,6 +155,14 @@ def _work(spec, conn):
                 res.update(verdict='INCONCLUSIVE', reason='NotDeterministic raised by engine')
             elif st == 'CONFIRMED':
                 res.update(verdict='CONFIRMED')
+                # guard against engine model gaps (e.g. identity of ints): the harness is also run concretely, untraced, on witness inputs that satisfy its
+                # precondition; a concrete failure is a counterexample in its own right
+                w = None if spec['expect'] != 'hold' else _witness_failure(h)
+                if w is not None:
+                    rp = replay_concrete(spec, w, {})
+                    if rp.get('reproduced'):
+                        res.update(verdict='REFUTED', cex=dict(args=w, kwargs={}), detail=rp.get('detail'), exception=rp.get('exception'),
+                                   note='found by the concrete witness run (symbolic and concrete execution disagree: engine model gap)')
             elif st in ('POST_FAIL', 'EXEC_ERR', 'POST_ERR'):
                 if 'args' not in r:
                     res.update(verdict='INCONCLUSIVE', reason='counterexample not parseable: ' + r['message'][:200])
@@ -113,6 +171,12 @@ def _work(spec, conn):
                     res['cex'] = dict(args=r['args'], kwargs=r['kwargs'])
                     if rp.get('reproduced'):
                         res.update(verdict='REFUTED', detail=rp.get('detail'), exception=rp.get('exception'))
+                    elif spec['params'].get('_twin') == 'reach' and rp.get('failed_concretely'):
+                        # the vacuity twin asked for an input on which the harness returns True; the engine produced one, but run concretely on the real code
+                        # the harness FAILS on it: that input is a concrete counterexample of the property obligation itself (and an engine model gap)
+                        plain = dict(spec, params={k: v for k, v in spec['params'].items() if k != '_twin'}, expect='hold')
+                        res.update(spec=plain, verdict='REFUTED', detail=rp.get('detail'), exception=rp.get('exception'),
+                                   note='counterexample obtained from the vacuity twin: symbolic and concrete execution disagree')
                     else:
                         res.update(verdict='INCONCLUSIVE',
                                    reason='spurious: counterexample does not reproduce concretely (%s)' % (rp.get('error') or 'harness returned True'))
